@@ -164,3 +164,12 @@ def run(ctx, model):
         if False in res:
             _guard(ctx, "R-IPV6", f, t_ext, res[False], ":", "IPv6")
     ctx.floor("R-IPV6", ctx.rule_counts.get("R-IPV6", 0), 40, "IPv6 shapes")
+
+    # ---------------- R-E2E: the text emitted by the real core builders denotes the composed term
+    from . import e2e
+    cfgs = [("IPv4", []), ("IPv4", [True]), ("IPv6", []), ("IPv6", [True])]
+    if ctx.tier == "thorough":
+        cfgs += []
+    ctx.parallel(cfgs, lambda c, cfg: e2e.compare(c, model, "R-E2E", *cfg), min_items=2)
+    ctx.floor("R-E2E", ctx.rule_counts.get("R-E2E", 0), len(cfgs), "end-to-end comparisons")
+
